@@ -2,13 +2,25 @@
    Real-number reading (Flocq [SF2R radix2]) of [normalize] and [decompose_float] of Model/JsonSer.v.
 
    Notation (from FloatErr.v): [p10 e] = 10^e, [uro f] = 2^-prec f,
-   [within u n v X] : (1-u)^n X <= v <= (1+u)^n X.
+   [within u n v X] : (1-u)^n X <= v <= (1+u)^n X;  here [sfr] = [SF2R radix2], [u64] = [uro F64].
 
    Main results
-     P0  bridges: fsub_correct, fcmp_correct, f_trunc_floor, fconv64_id, fconv64_of32
-     P1  normalize64_spec      (the three branches of [normalize F64])
-     P2  decompose_core        (integral/decimal split of a normalized value)
-     P3  decompose_accuracy_gen (6 <= P <= 9), decompose_accuracy_double, decompose_accuracy_float *)
+     P0  bridges: SFsub_Bminus, fsub_exact, fmul_any, fcmp_correct (f_ge_R, f_lt_R, f_le_R),
+         f_trunc_floor, fconv64_id, fconv64_of32
+     P1  normalize64_spec: for a positive finite double x in [1e-300, 1e300], normalize F64 x = (y, e) with
+         either  y = x (1+d)^k 10^-e, k <= 18 roundings, (1-u)^18 <= y <= 10 (1+u)^18   [norm_ok]
+         or      (y, e) = (x, 0) and x < 1e7
+         (normalize_up_ok / normalize_down_ok: the loop invariants IU / ID)
+     P2  decimal_core (integral part by truncation, remainder * 10^p rounded half up: |dec - rem*10^p| <= 1/2 + 1e-6),
+         reduce_places_spec, strip_zeros_spec, decompose_core
+     P3  decompose_full_gen / decompose_accuracy_gen (P decimal places, 6 <= P <= 9, error 10^-P * max(1,x)),
+         decompose_accuracy_double (P = 9, 1e-9), decompose_accuracy_float (P = 6, 1e-6, x a widened binary32)
+         where  parts_value p = (integral + decimal / 10^places) * 10^exponent,  and parts_wf
+     P4  the text: lit_text / lit_value (sign, integer digits, fraction digits, exponent digits and what they
+         spell), body_text_lit, write_float_body, write_float_accuracy_gen, write_f64_accuracy,
+         write_f32_accuracy, ser_double_accuracy, ser_float_accuracy.
+   The constants 1e-9 / 1e-6 of the property hold as stated (no counterexample); in the normalized
+   branches the bound is even relative: 10^-P * x. *)
 From Coq Require Import ZArith Reals Lia Lra List Bool.
 From Flocq Require Import Core BinarySingleNaN Relative.
 From Coq Require Import Floats.SpecFloat.
@@ -914,4 +926,451 @@ Proof.
   replace (IZR (d0 + Zfloor ((sfr r1 - IZR d0) * 2)) - z)%R
     with ((IZR (d0 + Zfloor ((sfr r1 - IZR d0) * 2)) - sfr r1) + (sfr r1 - z))%R by ring.
   apply Rle_trans with (1 := Rabs_triang _ _). lra.
+Qed.
+
+(* --- reduce_places, strip_zeros --- *)
+
+Lemma wrapZs8_small : forall x, -128 <= x < 128 -> wrapZs 8 x = x.
+Proof.
+  intros x Hx. unfold wrapZs. change (2 ^ 8) with 256. change (2 ^ (8 - 1)) with 128.
+  destruct (Z_lt_le_dec x 0) as [N|N].
+  - replace (x mod 256) with (x + 256) by (apply (Z.mod_unique x 256 (-1) (x + 256)); lia).
+    destruct (Z.ltb_spec (x + 256) 128); lia.
+  - rewrite Z.mod_small by lia. destruct (Z.ltb_spec x 128); lia.
+Qed.
+
+Lemma pow10_S : forall a, 0 <= a -> 10 ^ (a + 1) = 10 * 10 ^ a.
+Proof. intros a Ha. rewrite Z.pow_add_r by lia. change (10 ^ 1) with 10. ring. Qed.
+
+Lemma reduce_places_spec : forall fuel tmp q,
+  0 <= tmp < 10 ^ Z.of_nat fuel -> tmp < 10 ^ (q + 1) -> 0 <= q <= 100 ->
+  exists j, 0 <= j <= q /\ reduce_places fuel tmp (10 ^ q) q = (10 ^ (q - j), q - j) /\
+            tmp < 10 ^ (j + 1) /\ (j = 0 \/ 10 ^ j <= tmp).
+Proof.
+  induction fuel as [|fuel IH]; intros tmp q Ht Hq Hq0.
+  - change (10 ^ Z.of_nat 0) with 1 in Ht. exists 0. split; [lia|].
+    cbn [reduce_places]. rewrite Z.sub_0_r. split; [reflexivity|]. split; [cbn; lia | left; reflexivity].
+  - cbn [reduce_places]. destruct (Z.leb_spec 10 tmp) as [G|L].
+    + assert (Q1 : 1 <= q).
+      { destruct (Z.eq_dec q 0) as [E|N]; [|lia]. subst q. change (10 ^ (0 + 1)) with 10 in Hq. lia. }
+      pose proof (Z.div_mod tmp 10 ltac:(lia)) as DM.
+      pose proof (Z.mod_pos_bound tmp 10 ltac:(lia)) as MB.
+      rewrite Nat2Z.inj_succ in Ht. unfold Z.succ in Ht. rewrite pow10_S in Ht by lia.
+      rewrite pow10_S in Hq by lia.
+      destruct (IH (tmp / 10) (q - 1)) as [j [Hj [RP [T1 T2]]]].
+      * lia.
+      * replace (q - 1 + 1) with q by ring. lia.
+      * lia.
+      * exists (j + 1). split; [lia|].
+        rewrite wrapZs8_small by lia.
+        replace (10 ^ q / 10) with (10 ^ (q - 1)).
+        2:{ replace q with ((q - 1) + 1) at 2 by ring. rewrite pow10_S by lia.
+            rewrite Z.mul_comm, Z.div_mul by lia. reflexivity. }
+        rewrite RP. replace (q - 1 - j) with (q - (j + 1)) by ring.
+        split; [reflexivity|]. rewrite (pow10_S (j + 1)) by lia. split; [lia|].
+        right. rewrite pow10_S by lia. destruct T2 as [->|T2]; [cbn; lia | lia].
+    + exists 0. split; [lia|]. rewrite Z.sub_0_r. split; [reflexivity|].
+      split; [cbn; lia | left; reflexivity].
+Qed.
+
+Lemma IZR_pow10 : forall a, 0 <= a -> IZR (10 ^ a) = p10 a.
+Proof. intros a Ha. unfold p10. rewrite <- IZR_Zpower by exact Ha. reflexivity. Qed.
+
+Lemma strip_zeros_spec : forall fuel d p, 0 <= d < 10 ^ p -> 0 <= p ->
+  0 <= fst (strip_zeros fuel d p) < 10 ^ snd (strip_zeros fuel d p) /\
+  0 <= snd (strip_zeros fuel d p) <= p /\
+  (IZR (fst (strip_zeros fuel d p)) * p10 (- snd (strip_zeros fuel d p)) = IZR d * p10 (- p))%R.
+Proof.
+  induction fuel as [|fuel IH]; intros d p Hd Hp.
+  - cbn. split; [lia|]. split; [lia|]. reflexivity.
+  - cbn [strip_zeros].
+    destruct (Z.eqb_spec (d mod 10) 0) as [E|N]; cbn [andb];
+      [destruct (Z.ltb_spec 0 p) as [L|G]|]; cbn [fst snd]; try (split; [lia|]; split; [lia|]; reflexivity).
+    pose proof (Z.div_mod d 10 ltac:(lia)) as DM. rewrite E, Z.add_0_r in DM.
+    destruct (IH (d / 10) (p - 1)) as [A [B C]]; [|lia|].
+    { replace p with ((p - 1) + 1) in Hd by ring. rewrite pow10_S in Hd by lia. lia. }
+    split; [exact A|]. split; [lia|]. rewrite C. rewrite DM at 2. rewrite mult_IZR.
+    replace (- (p - 1)) with (1 + - p) by ring. rewrite p10_plus, p10_1. ring.
+Qed.
+
+(* --- the exact decimal value of the printed parts --- *)
+
+Definition parts_value (p : float_parts) : R :=
+  ((IZR (fp_integral p) + IZR (fp_decimal p) / p10 (fp_places p)) * p10 (fp_exponent p))%R.
+
+(* the parts fit their printers: the decimals have exactly [fp_places] digits *)
+Definition parts_wf (p : float_parts) : Prop :=
+  0 <= fp_integral p <= 10000000 /\ 0 <= fp_places p <= 9 /\
+  0 <= fp_decimal p < 10 ^ fp_places p /\ -512 <= fp_exponent p <= 512.
+
+(* P2: what decompose_float computes from the normalized value (y, e) *)
+Lemma decompose_core : forall x y e P, normalize F64 x = (y, e) ->
+  valid F64 y -> FloatModel.is_finite y = true -> (0 <= sfr y < 10000000)%R ->
+  6 <= P <= 9 -> -511 <= e <= 511 -> (e = 0 \/ (sfr y <= 10 + / 1000)%R) ->
+  parts_wf (decompose_float F64 x P) /\
+  exists j, 0 <= j <= 6 /\ (j = 0 \/ (p10 j <= sfr y)%R) /\
+    (Rabs (parts_value (decompose_float F64 x P) - sfr y * p10 e)
+       <= (/ 2 + / 1000000) * p10 (j - P) * p10 e)%R.
+Proof.
+  intros x y e P Hn Vy Fy HY HP He Hsm. set (Y := sfr y) in *.
+  assert (HY32 : (0 <= Y < 4294967296)%R) by lra.
+  destruct (to_u32_floor y Fy HY32) as [EI HI]. fold Y in EI, HI.
+  assert (I7 : to_u32 y < 10 ^ 7).
+  { rewrite EI. apply lt_IZR. apply Rle_lt_trans with Y; [apply Zfloor_lb|].
+    change (10 ^ 7) with 10000000. lra. }
+  destruct (reduce_places_spec 12 (to_u32 y) P) as [j [Hj [RP [J1 J2]]]].
+  { split; [lia|]. apply Z.lt_trans with (1 := I7). vm_compute. reflexivity. }
+  { apply Z.lt_le_trans with (1 := I7). apply Z.pow_le_mono_r; lia. }
+  { lia. }
+  assert (J6 : j <= 6).
+  { destruct J2 as [->|J2]; [lia|]. destruct (Z_le_gt_dec j 6) as [L|G]; [exact L|]. exfalso.
+    assert (10 ^ 7 <= 10 ^ j) by (apply Z.pow_le_mono_r; lia). lia. }
+  set (M := 10 ^ (P - j)) in *.
+  assert (HM : 1 <= M <= 1000000000).
+  { unfold M. split.
+    - change 1 with (10 ^ 0). apply Z.pow_le_mono_r; lia.
+    - change 1000000000 with (10 ^ 9). apply Z.pow_le_mono_r; lia. }
+  assert (MR : IZR M = p10 (P - j)) by (apply IZR_pow10; lia).
+  pose proof (decimal_core y M Vy Fy HY32 HM) as DC. cbv zeta in DC.
+  destruct DC as [_ [HD HE]]. fold Y in HE.
+  unfold decompose_float. rewrite Hn. cbv beta iota zeta. rewrite RP. cbv beta iota zeta. fold M.
+  set (D := wrapZu 32 _) in *. set (I := to_u32 y) in *.
+  change (10 ^ 7) with 10000000 in I7.
+  (* the value before carry handling *)
+  assert (Main : forall I' d' e',
+     ((IZR I' + IZR d' * p10 (- (P - j))) * p10 e' = (IZR I + IZR D * p10 (- (P - j))) * p10 e)%R ->
+     0 <= d' < M -> 0 <= I' <= 10000000 -> -512 <= e' <= 512 ->
+     let p := (let '(decimal, places) := strip_zeros 12 d' (P - j) in
+         {| fp_integral := I'; fp_decimal := decimal; fp_exponent := e'; fp_places := places |}) in
+     parts_wf p /\
+     exists j, 0 <= j <= 6 /\ (j = 0 \/ (p10 j <= Y)%R) /\
+     (Rabs (parts_value p - Y * p10 e) <= (/ 2 + / 1000000) * p10 (j - P) * p10 e)%R).
+  { intros I' d' e' EQ Hd' HI' He'.
+    destruct (strip_zeros_spec 12 d' (P - j) Hd') as [S1 [S2 S3]]; [lia|].
+    destruct (strip_zeros 12 d' (P - j)) as [dd pp]. cbn [fst snd] in S1, S2, S3.
+    cbv zeta. split.
+    { unfold parts_wf. cbn [fp_integral fp_decimal fp_exponent fp_places]. lia. }
+    exists j. split; [lia|]. split.
+    { destruct J2 as [->|J2]; [left; reflexivity|]. right. rewrite <- IZR_pow10 by lia.
+      apply Rle_trans with (IZR I); [apply IZR_le; exact J2|]. rewrite EI. apply Zfloor_lb. }
+    unfold parts_value. cbn [fp_integral fp_decimal fp_exponent fp_places].
+    unfold Rdiv. rewrite <- p10_opp, S3, EQ.
+    assert (P0 : (0 < p10 e)%R) by apply p10_pos.
+    assert (P1 : (0 < p10 (- (P - j)))%R) by apply p10_pos.
+    replace ((IZR I + IZR D * p10 (- (P - j))) * p10 e - Y * p10 e)%R
+      with ((IZR D - (Y - IZR I) * IZR M) * p10 (- (P - j)) * p10 e)%R.
+    2:{ rewrite MR. transitivity ((IZR D * p10 (- (P - j)) - (Y - IZR I) * (p10 (P - j) * p10 (- (P - j)))) * p10 e)%R;
+          [ring | rewrite p10_inv_l; ring]. }
+    rewrite !Rabs_mult, (Rabs_pos_eq (p10 e)), (Rabs_pos_eq (p10 (- (P - j)))) by lra.
+    replace (j - P) with (- (P - j)) by ring.
+    apply Rmult_le_compat_r; [lra|]. apply Rmult_le_compat_r; [lra|]. exact HE. }
+  cbv zeta in Main.
+  destruct (Z.leb_spec M D) as [Carry|NoCarry].
+  - assert (DM : D = M) by lia.
+    assert (I1 : wrapZu 32 (I + 1) = I + 1).
+    { unfold wrapZu. change (2 ^ 32) with 4294967296. apply Z.mod_small. lia. }
+    rewrite I1.
+    assert (V1 : ((IZR (I + 1) + IZR 0 * p10 (- (P - j))) * p10 e
+                  = (IZR I + IZR D * p10 (- (P - j))) * p10 e)%R).
+    { rewrite DM, MR, p10_inv_l, plus_IZR. ring. }
+    destruct (negb (e =? 0) && (10 <=? I + 1)) eqn:Big.
+    + apply andb_prop in Big. destruct Big as [B1 B2].
+      apply negb_true_iff, Z.eqb_neq in B1. apply Z.leb_le in B2.
+      destruct Hsm as [E0|Sm]; [contradiction|].
+      assert (I10 : I < 11).
+      { apply lt_IZR. rewrite EI. apply Rle_lt_trans with Y; [apply Zfloor_lb | lra]. }
+      assert (I9 : I = 9).
+      { destruct (Z.eq_dec I 10) as [E10|N10]; [|lia]. exfalso.
+        rewrite DM, E10 in HE. apply Rabs_le_inv in HE.
+        assert (1 <= IZR M)%R by (apply IZR_le; lia).
+        assert (0 <= Y - 10)%R by (rewrite <- E10, EI; pose proof (Zfloor_lb Y); lra).
+        assert ((Y - 10) * IZR M <= / 1000 * IZR M)%R by (apply Rmult_le_compat_r; lra).
+        lra. }
+      rewrite wrapZs16_small by lia.
+      apply Main; [|lia|lia|lia]. rewrite DM, MR, p10_inv_l, I9, p10_plus, p10_1. ring.
+    + apply Main; [exact V1 | lia | lia | lia].
+  - apply Main; [reflexivity | lia | lia | lia].
+Qed.
+
+(* ------------------------------------------------------------------------------------------ *)
+(* Part 3 — accuracy of the printed parts                                                       *)
+(* ------------------------------------------------------------------------------------------ *)
+
+Lemma p10_m9 : p10 (-9) = 1e-9%R.
+Proof. unfold p10. cbn. lra. Qed.
+
+Lemma p10_m6 : p10 (-6) = 1e-6%R.
+Proof. unfold p10. cbn. lra. Qed.
+
+(* P3: P decimal places, 6 <= P <= 9 *)
+Theorem decompose_full_gen : forall x P, valid F64 x -> FloatModel.is_finite x = true ->
+  (0 < sfr x)%R -> (p10 (-300) <= sfr x <= p10 300)%R -> 6 <= P <= 9 ->
+  parts_wf (decompose_float F64 x P) /\
+  (Rabs (parts_value (decompose_float F64 x P) - sfr x) <= p10 (- P) * Rmax 1 (sfr x))%R.
+Proof.
+  intros x P Vx Fx Hpos Hr HP. set (X := sfr x) in *.
+  assert (Q0 : (0 < p10 (- P))%R) by apply p10_pos.
+  assert (Q9 : (1e-9 <= p10 (- P))%R) by (rewrite <- p10_m9; apply p10_mono; lia).
+  pose proof (Rmax_l 1 X) as M1. pose proof (Rmax_r 1 X) as MX.
+  destruct (normalize64_spec x Vx Fx Hpos Hr) as [NO|[Hn Hlt]].
+  - destruct (normalize F64 x) as [y e] eqn:Hn. cbn [fst snd] in NO.
+    destruct NO as [Vy [Fy [He [W [B1 B2]]]]]. fold X in W. set (Y := sfr y) in *.
+    pose proof u64_up as Uu. pose proof u64_dn as Ud.
+    destruct (decompose_core x y e P Hn Vy Fy) as [WF [j [Hj [J E1]]]]; try assumption.
+    { fold Y. lra. } { right. fold Y. lra. }
+    split; [exact WF|]. fold Y in J, E1.
+    assert (Pe : (0 < p10 e)%R) by apply p10_pos.
+    set (Zv := (Y * p10 e)%R) in *.
+    (* Zv is X up to the accumulated rounding *)
+    assert (WZ : ((1 - 2e-15) * X <= Zv <= (1 + 2e-15) * X)%R).
+    { destruct W as [W1 W2]. unfold Zv.
+      assert (EX : (X * p10 (- e) * p10 e = X)%R).
+      { rewrite Rmult_assoc, (Rmult_comm (p10 (- e))), p10_inv_l. ring. }
+      split.
+      - apply Rle_trans with ((1 - u64) ^ 18 * (X * p10 (- e)) * p10 e)%R.
+        + rewrite Rmult_assoc, EX. apply Rmult_le_compat_r; lra.
+        + apply Rmult_le_compat_r; lra.
+      - apply Rle_trans with ((1 + u64) ^ 18 * (X * p10 (- e)) * p10 e)%R.
+        + apply Rmult_le_compat_r; lra.
+        + rewrite Rmult_assoc, EX. apply Rmult_le_compat_r; lra. }
+    (* 10^j is at most Y up to the same *)
+    assert (JY : (p10 j * (1 - 2e-15) <= Y)%R).
+    { destruct J as [->|J]; [rewrite p10_0; lra|].
+      assert (0 < p10 j)%R by apply p10_pos. nra. }
+    assert (E2 : ((/ 2 + / 1000000) * p10 (j - P) * p10 e <= 51 / 100 * p10 (- P) * X)%R).
+    { replace (j - P) with (- P + j) by ring. rewrite p10_plus.
+      assert (JZ : (p10 j * p10 e * (1 - 2e-15) <= Zv)%R).
+      { unfold Zv. replace (p10 j * p10 e * (1 - 2e-15))%R with ((p10 j * (1 - 2e-15)) * p10 e)%R by ring.
+        apply Rmult_le_compat_r; lra. }
+      assert (JX : (p10 j * p10 e <= 101 / 100 * X)%R) by lra.
+      replace ((/ 2 + / 1000000) * (p10 (- P) * p10 j) * p10 e)%R
+        with ((/ 2 + / 1000000) * p10 (- P) * (p10 j * p10 e))%R by ring.
+      apply Rle_trans with ((/ 2 + / 1000000) * p10 (- P) * (101 / 100 * X))%R.
+      - apply Rmult_le_compat_l; [|exact JX]. apply Rmult_le_pos; lra.
+      - assert (0 <= p10 (- P) * X)%R by (apply Rmult_le_pos; lra). nra. }
+    replace (parts_value (decompose_float F64 x P) - X)%R
+      with ((parts_value (decompose_float F64 x P) - Zv) + (Zv - X))%R by ring.
+    apply Rle_trans with (1 := Rabs_triang _ _).
+    assert (E3 : (Rabs (Zv - X) <= 2e-15 * X)%R) by (apply Rabs_le; lra).
+    apply Rle_trans with (p10 (- P) * X)%R; [|apply Rmult_le_compat_l; lra].
+    assert (E4 : (2e-15 * X <= 49 / 100 * p10 (- P) * X)%R).
+    { apply Rmult_le_compat_r; lra. }
+    lra.
+  - destruct (decompose_core x x 0 P Hn Vx Fx) as [WF [j [Hj [J E1]]]]; try assumption.
+    { fold X. fold X in Hlt. lra. } { lia. } { left; reflexivity. }
+    split; [exact WF|]. fold X in J, E1. rewrite p10_0, !Rmult_1_r in E1.
+    apply Rle_trans with (1 := E1).
+    replace (j - P) with (- P + j) by ring. rewrite p10_plus.
+    assert (JM : (p10 j <= Rmax 1 X)%R).
+    { destruct J as [->|J]; [rewrite p10_0; exact M1 | lra]. }
+    apply Rle_trans with (1 * (p10 (- P) * p10 j))%R; [|rewrite Rmult_1_l; apply Rmult_le_compat_l; lra].
+    apply Rmult_le_compat_r; [|lra].
+    apply Rmult_le_pos; left; apply p10_pos.
+Qed.
+
+Theorem decompose_accuracy_gen : forall x P, valid F64 x -> FloatModel.is_finite x = true ->
+  (0 < sfr x)%R -> (p10 (-300) <= sfr x <= p10 300)%R -> 6 <= P <= 9 ->
+  (Rabs (parts_value (decompose_float F64 x P) - sfr x) <= p10 (- P) * Rmax 1 (sfr x))%R.
+Proof. intros x P Vx Fx Hpos Hr HP. apply (decompose_full_gen x P Vx Fx Hpos Hr HP). Qed.
+
+(* a double: 9 decimal places *)
+Theorem decompose_accuracy_double : forall x, valid F64 x -> FloatModel.is_finite x = true ->
+  (0 < sfr x)%R -> (p10 (-300) <= sfr x <= p10 300)%R ->
+  (Rabs (parts_value (decompose_float F64 x 9) - sfr x) <= 1e-9 * Rmax 1 (sfr x))%R.
+Proof.
+  intros x Vx Fx Hpos Hr. rewrite <- p10_m9.
+  apply (decompose_accuracy_gen x 9 Vx Fx Hpos Hr). lia.
+Qed.
+
+(* a float (binary32), converted to double by JsonFloat(value): 6 decimal places *)
+Theorem decompose_accuracy_float : forall v, valid F32 v -> FloatModel.is_finite v = true ->
+  (0 < sfr v)%R -> (p10 (-300) <= sfr v <= p10 300)%R ->
+  (Rabs (parts_value (decompose_float F64 (fconv F64 v) 6) - sfr v) <= 1e-6 * Rmax 1 (sfr v))%R.
+Proof.
+  intros v Vv Fv Hpos Hr. destruct (fconv64_of32 v Vv Fv) as [C1 [C2 C3]].
+  rewrite <- C1 in Hpos, Hr |- *. rewrite <- p10_m6.
+  apply (decompose_accuracy_gen (fconv F64 v) 6 C2 C3 Hpos Hr). lia.
+Qed.
+
+(* ------------------------------------------------------------------------------------------ *)
+(* Part 4 — the printed text                                                                    *)
+(* ------------------------------------------------------------------------------------------ *)
+From AJ Require Import Proofs.JsonSerRT.
+
+(* a literal  [-] i [. f] [e [-] e]  and the number it spells; [f = []] / [e = []] : part absent *)
+Definition lit_text (neg : bool) (i f : bytes) (eneg : bool) (e : bytes) : bytes :=
+  (if neg then [45%N] else []) ++ i ++
+  (match f with [] => [] | _ => 46%N :: f end) ++
+  (match e with [] => [] | _ => 101%N :: (if eneg then [45%N] else []) ++ e end).
+
+Definition lit_value (neg : bool) (i f : bytes) (eneg : bool) (e : bytes) : R :=
+  (sgnR neg * ((IZR (digits_value i) + IZR (digits_value f) / p10 (Z.of_nat (length f)))
+               * p10 ((if eneg then -1 else 1) * digits_value e)))%R.
+
+Lemma decimals_rev_spec : forall w z, 0 <= z < 10 ^ Z.of_nat w ->
+  digits_value (rev (decimals_rev w z)) = z /\
+  Forall is_digit_byte (rev (decimals_rev w z)) /\
+  length (rev (decimals_rev w z)) = w.
+Proof.
+  induction w as [|w IH]; intros z Hz.
+  - change (10 ^ Z.of_nat 0) with 1 in Hz. cbn. split; [lia|]. split; [constructor | reflexivity].
+  - cbn [decimals_rev rev].
+    assert (Hm : 0 <= z mod 10 < 10) by (apply Z.mod_pos_bound; lia).
+    assert (Hdiv : z = 10 * (z / 10) + z mod 10) by (apply Z_div_mod_eq_full).
+    rewrite pow10_succ in Hz.
+    destruct (IH (z / 10)) as [V [F L]].
+    { split; [apply Z.div_pos; lia | apply Z.div_lt_upper_bound; lia]. }
+    rewrite digits_value_snoc, V. split; [lia|]. split.
+    + apply Forall_app. split; [exact F|]. constructor; [|constructor]. unfold is_digit_byte. lia.
+    + rewrite app_length, L. cbn. lia.
+Qed.
+
+(* the unsigned body printed by write_float, from the parts *)
+Definition body_text (p : float_parts) : bytes :=
+  write_uint (fp_integral p) ++
+  (if negb (fp_places p =? 0) then write_decimals (fp_decimal p) (Z.to_nat (fp_places p)) else []) ++
+  (if negb (fp_exponent p =? 0) then 101%N :: write_int (fp_exponent p) else []).
+
+Lemma body_text_lit : forall p, parts_wf p ->
+  exists i f eneg e, body_text p = lit_text false i f eneg e /\
+    Forall is_digit_byte i /\ i <> [] /\ Forall is_digit_byte f /\ Forall is_digit_byte e /\
+    lit_value false i f eneg e = parts_value p.
+Proof.
+  intros [I D E PL] [HI [HP [HD HE]]]. cbn [fp_integral fp_decimal fp_exponent fp_places] in *.
+  assert (P64 : 10000000 < 2 ^ 64) by (vm_compute; reflexivity).
+  destruct (write_uint_value I) as [IV [IF [INE _]]]; [lia|].
+  set (f := if PL =? 0 then [] else rev (decimals_rev (Z.to_nat PL) D)).
+  set (e := if E =? 0 then [] else write_uint (Z.abs E)).
+  exists (write_uint I), f, (E <? 0), e.
+  assert (Ff : Forall is_digit_byte f /\ (PL <> 0 -> f <> []) /\
+               (IZR (digits_value f) / p10 (Z.of_nat (length f)) = IZR D / p10 PL)%R).
+  { unfold f. destruct (Z.eqb_spec PL 0) as [E0|N0].
+    - subst PL. change (10 ^ 0) with 1 in HD. assert (D = 0) by lia. subst D.
+      split; [constructor|]. split; [congruence|]. reflexivity.
+    - destruct (decimals_rev_spec (Z.to_nat PL) D) as [V [F L]]; [rewrite Z2Nat.id by lia; exact HD|].
+      split; [exact F|]. split.
+      + intros _ Hnil. rewrite Hnil in L. cbn in L. lia.
+      + rewrite V, L, Z2Nat.id by lia. reflexivity. }
+  destruct Ff as [Ff [Fne Fv]].
+  assert (Fe : Forall is_digit_byte e /\ (E <> 0 -> e <> []) /\
+               (if E <? 0 then -1 else 1) * digits_value e = E).
+  { unfold e. destruct (Z.eqb_spec E 0) as [E0|N0].
+    - subst E. split; [constructor|]. split; [congruence|]. reflexivity.
+    - destruct (write_uint_value (Z.abs E)) as [V [F [NE _]]]; [lia|].
+      split; [exact F|]. split; [intros _; exact NE|]. rewrite V.
+      destruct (Z.ltb_spec E 0); lia. }
+  destruct Fe as [Fe [Ene Ev]].
+  split; [|split; [exact IF|]; split; [exact INE|]; split; [exact Ff|]; split; [exact Fe|]].
+  - unfold body_text, lit_text. cbn [fp_integral fp_decimal fp_exponent fp_places app].
+    f_equal. f_equal.
+    + destruct (Z.eqb_spec PL 0) as [E0|N0]; cbn [negb].
+      * reflexivity.
+      * specialize (Fne N0). unfold write_decimals. unfold f in Fne |- *.
+        destruct (rev (decimals_rev (Z.to_nat PL) D)) as [|b t]; [congruence | reflexivity].
+    + destruct (Z.eqb_spec E 0) as [E0|N0]; cbn [negb].
+      * reflexivity.
+      * specialize (Ene N0). rewrite write_int_spec by lia. unfold e in Ene |- *.
+        destruct (write_uint (Z.abs E)) as [|b t]; [congruence | reflexivity].
+  - unfold lit_value, parts_value. cbn [fp_integral fp_decimal fp_exponent fp_places sgnR].
+    rewrite IV, Fv, Ev. ring.
+Qed.
+
+Lemma finite_not_special : forall x, FloatModel.is_finite x = true ->
+  is_nan x = false /\ is_inf x = false /\ is_inf (fneg x) = false.
+Proof. intros [s|s| |s m e] F; try discriminate; repeat split. Qed.
+
+Lemma write_float_body : forall c x P, FloatModel.is_finite x = true ->
+  write_float c x P =
+  (if f_lt x f_zero then [45%N] else []) ++
+  body_text (decompose_float (jfmt c) (if f_lt x f_zero then fneg x else x) P).
+Proof.
+  intros c x P Fx. destruct (finite_not_special x Fx) as [N1 [N2 N3]].
+  unfold write_float, body_text. rewrite N1.
+  assert (N4 : is_inf (if f_lt x f_zero then fneg x else x) = false)
+    by (destruct (f_lt x f_zero); assumption).
+  destruct (enable_inf c); [rewrite N4 | rewrite N2]; reflexivity.
+Qed.
+
+(* P4: the text written for a finite non-zero double, P decimal places *)
+Theorem write_float_accuracy_gen : forall c x P, use_double c = true ->
+  valid F64 x -> FloatModel.is_finite x = true ->
+  (p10 (-300) <= Rabs (sfr x) <= p10 300)%R -> 6 <= P <= 9 ->
+  exists neg i f eneg e, write_float c x P = lit_text neg i f eneg e /\
+    Forall is_digit_byte i /\ i <> [] /\ Forall is_digit_byte f /\ Forall is_digit_byte e /\
+    (Rabs (lit_value neg i f eneg e - sfr x) <= p10 (- P) * Rmax 1 (Rabs (sfr x)))%R.
+Proof.
+  intros c x P Hc Vx Fx Hr HP.
+  rewrite (write_float_body c x P Fx). unfold jfmt. rewrite Hc.
+  assert (VZ : valid F64 f_zero) by (vm_compute; reflexivity).
+  destruct (f_lt_R F64 x f_zero good_F64 Vx VZ Fx eq_refl) as [G1 G2].
+  change (sfr f_zero) with 0%R in G1, G2.
+  assert (Hp : (0 < Rabs (sfr x))%R) by (apply Rlt_le_trans with (2 := proj1 Hr); apply p10_pos).
+  set (neg := f_lt x f_zero) in *.
+  destruct (sgn_sf_props F64 neg x Vx Fx) as [S1 [S2 S3]]. unfold sgn_sf in S1, S2, S3.
+  set (x' := if neg then fneg x else x) in *.
+  assert (AX : sfr x' = Rabs (sfr x)).
+  { rewrite S3. destruct neg; cbn [sgnR].
+    - specialize (G1 eq_refl). rewrite Rabs_left by exact G1. ring.
+    - specialize (G2 eq_refl). rewrite Rabs_pos_eq by exact G2. ring. }
+  assert (XS : sfr x = (sgnR neg * sfr x')%R).
+  { rewrite S3. destruct neg; cbn [sgnR]; ring. }
+  destruct (decompose_full_gen x' P S1 S2) as [WF ACC]; [rewrite AX; exact Hp | rewrite AX; exact Hr | exact HP |].
+  destruct (body_text_lit _ WF) as [i [f [eneg [e [T [Di [Ni [Df [De V]]]]]]]]].
+  exists neg, i, f, eneg, e. rewrite T.
+  split; [unfold lit_text; destruct neg; reflexivity|].
+  split; [exact Di|]. split; [exact Ni|]. split; [exact Df|]. split; [exact De|].
+  rewrite <- AX. rewrite XS at 1.
+  replace (lit_value neg i f eneg e) with (sgnR neg * lit_value false i f eneg e)%R
+    by (unfold lit_value; cbn [sgnR]; ring).
+  rewrite V. apply sgn_err. exact ACC.
+Qed.
+
+(* writeFloat(double): 9 decimal places, within 1e-9 * max(1,|x|) *)
+Theorem write_f64_accuracy : forall c x, use_double c = true ->
+  valid F64 x -> FloatModel.is_finite x = true ->
+  (p10 (-300) <= Rabs (sfr x) <= p10 300)%R ->
+  exists neg i f eneg e, write_f64 c x = lit_text neg i f eneg e /\
+    Forall is_digit_byte i /\ i <> [] /\ Forall is_digit_byte f /\ Forall is_digit_byte e /\
+    (Rabs (lit_value neg i f eneg e - sfr x) <= 1e-9 * Rmax 1 (Rabs (sfr x)))%R.
+Proof.
+  intros c x Hc Vx Fx Hr. unfold write_f64, jfmt. rewrite Hc.
+  destruct (fconv64_id x Vx Fx) as [C1 [C2 C3]]. rewrite <- C1 in Hr |- *. rewrite <- p10_m9.
+  apply (write_float_accuracy_gen c (fconv F64 x) 9 Hc C2 C3 Hr). lia.
+Qed.
+
+(* writeFloat(float): the binary32 value is widened to double, 6 decimal places,
+   within 1e-6 * max(1,|x|) *)
+Theorem write_f32_accuracy : forall c v, use_double c = true ->
+  valid F32 v -> FloatModel.is_finite v = true ->
+  (p10 (-300) <= Rabs (sfr v) <= p10 300)%R ->
+  exists neg i f eneg e, write_f32 c v = lit_text neg i f eneg e /\
+    Forall is_digit_byte i /\ i <> [] /\ Forall is_digit_byte f /\ Forall is_digit_byte e /\
+    (Rabs (lit_value neg i f eneg e - sfr v) <= 1e-6 * Rmax 1 (Rabs (sfr v)))%R.
+Proof.
+  intros c v Hc Vv Fv Hr. unfold write_f32, jfmt. rewrite Hc.
+  destruct (fconv64_of32 v Vv Fv) as [C1 [C2 C3]]. rewrite <- C1 in Hr |- *. rewrite <- p10_m6.
+  apply (write_float_accuracy_gen c (fconv F64 v) 6 Hc C2 C3 Hr). lia.
+Qed.
+
+(* the same through the serializer entry points *)
+Corollary ser_double_accuracy : forall c x, use_double c = true ->
+  valid F64 x -> FloatModel.is_finite x = true ->
+  (p10 (-300) <= Rabs (sfr x) <= p10 300)%R ->
+  exists neg i f eneg e, ser c (JDouble x) = lit_text neg i f eneg e /\
+    (Rabs (lit_value neg i f eneg e - sfr x) <= 1e-9 * Rmax 1 (Rabs (sfr x)))%R.
+Proof.
+  intros c x Hc Vx Fx Hr.
+  destruct (write_f64_accuracy c x Hc Vx Fx Hr) as [neg [i [f [eneg [e [T [_ [_ [_ [_ A]]]]]]]]]].
+  exists neg, i, f, eneg, e. split; [exact T | exact A].
+Qed.
+
+Corollary ser_float_accuracy : forall c v, use_double c = true ->
+  valid F32 v -> FloatModel.is_finite v = true ->
+  (p10 (-300) <= Rabs (sfr v) <= p10 300)%R ->
+  exists neg i f eneg e, ser c (JFloat v) = lit_text neg i f eneg e /\
+    (Rabs (lit_value neg i f eneg e - sfr v) <= 1e-6 * Rmax 1 (Rabs (sfr v)))%R.
+Proof.
+  intros c v Hc Vv Fv Hr.
+  destruct (write_f32_accuracy c v Hc Vv Fv Hr) as [neg [i [f [eneg [e [T [_ [_ [_ [_ A]]]]]]]]]].
+  exists neg, i, f, eneg, e. split; [exact T | exact A].
 Qed.
